@@ -1,6 +1,43 @@
 // All driver logic lives in-crate (rustdds::verif_hooks, mounted from /verif/harness/inrepo)
-// because the objects under test are pub(crate).
+// because the objects under test are pub(crate).  The binary only adds a counting allocator so
+// that the C06 driver can measure the bytes allocated while a datagram is handled.
+use std::{
+  alloc::{GlobalAlloc, Layout, System},
+  sync::atomic::{AtomicU64, Ordering},
+};
+
+struct Counting;
+static ALLOCATED: AtomicU64 = AtomicU64::new(0);
+
+unsafe impl GlobalAlloc for Counting {
+  unsafe fn alloc(&self, l: Layout) -> *mut u8 {
+    ALLOCATED.fetch_add(l.size() as u64, Ordering::Relaxed);
+    System.alloc(l)
+  }
+  unsafe fn dealloc(&self, p: *mut u8, l: Layout) {
+    System.dealloc(p, l)
+  }
+  unsafe fn alloc_zeroed(&self, l: Layout) -> *mut u8 {
+    ALLOCATED.fetch_add(l.size() as u64, Ordering::Relaxed);
+    System.alloc_zeroed(l)
+  }
+  unsafe fn realloc(&self, p: *mut u8, l: Layout, new_size: usize) -> *mut u8 {
+    if new_size > l.size() {
+      ALLOCATED.fetch_add((new_size - l.size()) as u64, Ordering::Relaxed);
+    }
+    System.realloc(p, l, new_size)
+  }
+}
+
+#[global_allocator]
+static GLOBAL: Counting = Counting;
+
+fn allocated_total() -> u64 {
+  ALLOCATED.load(Ordering::Relaxed)
+}
+
 fn main() {
+  rustdds::verif_hooks::c06::set_alloc_probe(allocated_total);
   let args: Vec<String> = std::env::args().skip(1).collect();
   std::process::exit(rustdds::verif_hooks::main(&args));
 }
